@@ -3,6 +3,7 @@
     skein new <slot> <256|512|1024>-<Nbytes>      ok
     skein update <slot> <hex> | updpat <slot> <len> <seed> | clone <a> <b> | reset <slot>     ok
     skein fin <slot>  → hex (finalize a copy) ;  skein finreset <slot> → hex
+    skein inject <slot> <variant> <x hex> <t0> <t1> <buffered hex>  ok   (C17)
     skein setctr <slot> <u64>  ok ;  skein getctr <slot> → "<t0> <t1>" ; skein getx <slot> → hex of x
   A call that panics prints `panic` and discards the slot (the Rust object is in an unspecified
   partially-updated state after unwinding; the generators re-create the slot before further use).
@@ -106,6 +107,17 @@ def step (cfg : Cfg) (st : St) : List String → St × String
       | none => (st, "bad-op")
       | some s => ({ slots := setSlot st.slots k { s with h := setByteCount s.h (BitVec.ofNat 64 v) } }, "ok")
     | _, _ => (st, "bad-op")
+  | ["skein", "inject", slot, variant, x, t0, t1, buf] =>
+    -- C17: a hasher with the given chaining value `x`, tweak words and buffered bytes (`input_lazy`
+    -- keeps 1..nb bytes back): the state a real instance was observed in after a long prefix
+    match slot.toNat?, parseVariant variant, bytesOfHex x, t0.toNat?, t1.toNat?, bytesOfHex buf with
+    | some k, some (p, n), some x, some t0, some t1, some buf =>
+      if x.length = p.nb ∧ buf.length ≤ p.nb ∧ t0 < 2 ^ 64 ∧ t1 < 2 ^ 64 then
+        let h : Hasher := { state := { t0 := BitVec.ofNat 64 t0, t1 := BitVec.ofNat 64 t1, x := x },
+                            buffer := { buf := CC.Buffer.splice (List.replicate p.nb 0) 0 buf, pos := buf.length } }
+        ({ slots := setSlot st.slots k { P := p, n := n, h := h } }, "ok")
+      else (st, "bad-op")
+    | _, _, _, _, _, _ => (st, "bad-op")
   | ["skein", "getctr", slot] =>
     match slot.toNat? with
     | some k =>
